@@ -27,39 +27,40 @@ Qed.
 
 (* --- quoted strings --- *)
 
-Definition cross_free (st : style) (q c : N) : bool :=
-  negb (st_cross st && ((c =? 34) || (c =? 39)) && negb (c =? q)).
-
-Lemma esc_char_cases : forall st q c, q = 34 \/ q = 39 -> cross_free st q c = true ->
+Lemma esc_char_cases : forall st q c, q = 34 \/ q = 39 ->
   (esc_char st q c = [c] /\ c <> q /\ c <> 92 /\ c <> 10 /\ c <> 13)
-  \/ (exists e, esc_char st q c = [92; e] /\ echar_ok q e = true /\ echar_val e = Some c).
+  \/ (exists e, esc_char st q c = [92; e] /\ echar_ok e = true /\ echar_val e = Some c).
 Proof.
-  intros st q c Hq Hcf. unfold esc_char.
-  destruct (N.eqb_spec c 9); [subst; right; exists 116; repeat split; destruct Hq; subst; reflexivity|].
-  destruct (N.eqb_spec c 10); [subst; right; exists 110; repeat split; destruct Hq; subst; reflexivity|].
-  destruct (N.eqb_spec c 13); [subst; right; exists 114; repeat split; destruct Hq; subst; reflexivity|].
-  destruct (N.eqb_spec c 92); [subst; right; exists 92; repeat split; destruct Hq; subst; reflexivity|].
+  intros st q c Hq. unfold esc_char.
+  destruct (N.eqb_spec c 9); [subst; right; exists 116; repeat split; reflexivity|].
+  destruct (N.eqb_spec c 10); [subst; right; exists 110; repeat split; reflexivity|].
+  destruct (N.eqb_spec c 13); [subst; right; exists 114; repeat split; reflexivity|].
+  destruct (N.eqb_spec c 92); [subst; right; exists 92; repeat split; reflexivity|].
   destruct (N.eqb_spec c q); [subst c; right; exists q; repeat split; destruct Hq; subst; reflexivity|].
-  destruct (st_esc_all st); simpl.
-  - destruct (N.eqb_spec c 8); [subst; right; exists 98; repeat split; destruct Hq; subst; reflexivity|].
-    destruct (N.eqb_spec c 12); [subst; right; exists 102; repeat split; destruct Hq; subst; reflexivity|].
-    unfold cross_free in Hcf. apply N.eqb_neq in n3. rewrite n3 in Hcf. simpl in Hcf.
-    rewrite andb_true_r in Hcf. apply negb_true_iff in Hcf. rewrite Hcf. left. apply N.eqb_neq in n3. auto.
-  - unfold cross_free in Hcf. apply N.eqb_neq in n3. rewrite n3 in Hcf. simpl in Hcf.
-    rewrite andb_true_r in Hcf. apply negb_true_iff in Hcf. rewrite Hcf. left. apply N.eqb_neq in n3. auto.
+  assert (Hcross : forall b : bool,
+            ((if b && ((c =? 34) || (c =? 39)) then [92; c] else [c]) = [c] /\ c <> q /\ c <> 92 /\ c <> 10 /\ c <> 13)
+            \/ (exists e, (if b && ((c =? 34) || (c =? 39)) then [92; c] else [c]) = [92; e]
+                          /\ echar_ok e = true /\ echar_val e = Some c)).
+  { intros [|]; cbn [andb]; [|left; auto].
+    destruct (N.eqb_spec c 34); [subst; right; exists 34; repeat split; reflexivity|].
+    destruct (N.eqb_spec c 39); [subst; right; exists 39; repeat split; reflexivity|].
+    left; auto. }
+  destruct (st_esc_all st); cbn [andb].
+  - destruct (N.eqb_spec c 8); [subst; right; exists 98; repeat split; reflexivity|].
+    destruct (N.eqb_spec c 12); [subst; right; exists 102; repeat split; reflexivity|].
+    apply Hcross.
+  - apply Hcross.
 Qed.
 
 Lemma scan_string_esc : forall st q lex tail, q = 34 \/ q = 39 ->
-  forallb (cross_free st q) lex = true ->
   (match tail with [] => true | c :: _ => negb (c =? q) end) = true ->
   scan_string q (flat_map (esc_char st q) lex ++ q :: tail) = Some (flat_map (esc_char st q) lex, tail).
 Proof.
-  intros st q lex tail Hq. induction lex as [|c r IH]; intros Hcf Ht.
+  intros st q lex tail Hq. induction lex as [|c r IH]; intros Ht.
   - simpl. rewrite N.eqb_refl. destruct tail as [|c2 t]; auto.
     apply negb_true_iff in Ht. now rewrite Ht.
-  - cbn [forallb] in Hcf. apply andb_true_iff in Hcf. destruct Hcf as [Hc Hr].
-    cbn [flat_map]. rewrite <- app_assoc.
-    destruct (esc_char_cases st q c Hq Hc) as [[E [N1 [N2 [N3 N4]]]]|[e [E [E1 E2]]]]; rewrite E.
+  - cbn [flat_map]. rewrite <- app_assoc.
+    destruct (esc_char_cases st q c Hq) as [[E [N1 [N2 [N3 N4]]]]|[e [E [E1 E2]]]]; rewrite E.
     + cbn [app scan_string]. apply N.eqb_neq in N1, N2, N3, N4. rewrite N1, N2, N3, N4. simpl orb. cbv iota.
       rewrite IH; auto.
     + cbn [app scan_string].
@@ -67,13 +68,12 @@ Proof.
       rewrite Hq92. change (92 =? 92) with true. cbv iota. rewrite E1. rewrite IH; auto.
 Qed.
 
-Lemma decode_esc : forall st q lex, q = 34 \/ q = 39 -> forallb (cross_free st q) lex = true ->
+Lemma decode_esc : forall st q lex, q = 34 \/ q = 39 ->
   decode_echar (flat_map (esc_char st q) lex) = lex.
 Proof.
-  intros st q lex Hq. induction lex as [|c r IH]; intro Hcf; [reflexivity|].
-  cbn [forallb] in Hcf. apply andb_true_iff in Hcf. destruct Hcf as [Hc Hr].
+  intros st q lex Hq. induction lex as [|c r IH]; [reflexivity|].
   cbn [flat_map].
-  destruct (esc_char_cases st q c Hq Hc) as [[E [N1 [N2 _]]]|[e [E [E1 E2]]]]; rewrite E.
+  destruct (esc_char_cases st q c Hq) as [[E [N1 [N2 _]]]|[e [E [E1 E2]]]]; rewrite E.
   - cbn [app decode_echar]. apply N.eqb_neq in N2. rewrite N2. rewrite IH; auto.
   - cbn [app decode_echar]. change (92 =? 92) with true. cbv iota. rewrite E2. rewrite IH; auto.
 Qed.
@@ -103,33 +103,15 @@ Proof. intros c H. unfold is_digit, in_range in H. apply andb_true_iff in H. des
 
 (* ------------------------------------------------------------------ *)
 
-Definition cross_free_term (st : style) (t : term) : bool :=
-  match t with Lit lex _ _ => forallb (cross_free st (quote_of st)) lex | _ => true end.
-
-Lemma uses_cross_free : forall st t, uses_cross st t = false -> cross_free_term st t = true.
-Proof.
-  intros st [s|s|lex dt lang] H; simpl; auto. simpl in H.
-  apply forallb_forall. intros c Hc. unfold cross_free.
-  destruct (st_cross st); simpl; auto. simpl in H.
-  assert (Hx := existsb_exists (fun c0 => if st_sq st then c0 =? 34 else c0 =? 39) lex).
-  destruct ((c =? 34) || (c =? 39)) eqn:E; simpl; auto.
-  destruct (N.eqb_spec c (quote_of st)); simpl; auto.
-  exfalso. assert (existsb (fun c0 => if st_sq st then c0 =? 34 else c0 =? 39) lex = true); [|congruence].
-  apply Hx. exists c. split; auto. unfold quote_of in n. destruct (st_sq st).
-  - apply orb_true_iff in E. destruct E as [E|E]; auto. apply N.eqb_eq in E. congruence.
-  - apply orb_true_iff in E. destruct E as [E|E]; auto. apply N.eqb_eq in E. congruence.
-Qed.
-
 Lemma scan_quoted : forall st lex dt lang rest,
-  term_wf (Lit lex dt lang) = true -> term_tsv_ok (Lit lex dt lang) = true ->
-  forallb (cross_free st (quote_of st)) lex = true -> at_empty rest = true ->
+  term_wf (Lit lex dt lang) = true -> term_tsv_ok (Lit lex dt lang) = true -> at_empty rest = true ->
   scan_term ((quote_of st :: flat_map (esc_char st (quote_of st)) lex ++ [quote_of st]
               ++ match lang with
                  | Some l => 64 :: l
                  | None => match dt with Some d => 94 :: 94 :: 60 :: d ++ [62] | None => [] end
                  end) ++ rest) = Some (Lit lex dt lang, rest).
 Proof.
-  intros st lex dt lang rest Hwf Hok Hcf Hrest.
+  intros st lex dt lang rest Hwf Hok Hrest.
   set (q := quote_of st) in *.
   assert (Hq : q = 34 \/ q = 39) by (unfold q, quote_of; destruct (st_sq st); auto).
   assert (Hqq : ((q =? 34) || (q =? 39)) = true) by (destruct Hq as [E|E]; rewrite E; reflexivity).
@@ -141,9 +123,9 @@ Proof.
     simpl in Hok. rewrite andb_true_r in Hok.
     assert (Hl : l <> []) by (destruct l; [discriminate|discriminate]).
     cbn [app].
-    rewrite (scan_string_esc st q lex (64 :: l ++ rest) Hq Hcf)
+    rewrite (scan_string_esc st q lex (64 :: l ++ rest) Hq)
       by (destruct Hq as [E|E]; rewrite E; reflexivity).
-    rewrite (decode_esc st q lex Hq Hcf).
+    rewrite (decode_esc st q lex Hq).
     rewrite take_while_app.
     + rewrite Hok. destruct l; [congruence|reflexivity].
     + eapply lang_shape_chars; exact Hok.
@@ -151,27 +133,26 @@ Proof.
   - destruct dt as [d|].
     + simpl in Hok.
       cbn [app]. rewrite <- app_assoc. cbn [app].
-      rewrite (scan_string_esc st q lex (94 :: 94 :: 60 :: d ++ 62 :: rest) Hq Hcf)
+      rewrite (scan_string_esc st q lex (94 :: 94 :: 60 :: d ++ 62 :: rest) Hq)
         by (destruct Hq as [E|E]; rewrite E; reflexivity).
-      rewrite (decode_esc st q lex Hq Hcf).
+      rewrite (decode_esc st q lex Hq).
       rewrite scan_iri_ok by auto.
       unfold py_Literal. simpl in Hwf.
       change (ostr_eqb (Some d) (Some xsd_boolean)) with (str_eqb d xsd_boolean) in Hwf.
       apply negb_true_iff in Hwf. rewrite Hwf. reflexivity.
     + cbn [app].
-      rewrite (scan_string_esc st q lex rest Hq Hcf)
+      rewrite (scan_string_esc st q lex rest Hq)
         by (destruct (at_empty_cases rest Hrest) as [E|[r E]]; subst; [reflexivity|destruct Hq as [E|E]; rewrite E; reflexivity]).
-      rewrite (decode_esc st q lex Hq Hcf).
+      rewrite (decode_esc st q lex Hq).
       destruct (at_empty_cases rest Hrest) as [E|[r E]]; subst; reflexivity.
 Qed.
 
 (* every term of a conformant rendering is recovered, whatever the style and the cell position *)
 Theorem scan_term_render : forall st t rest,
-  term_wf t = true -> term_tsv_ok t = true -> uses_cross st t = false -> at_empty rest = true ->
+  term_wf t = true -> term_tsv_ok t = true -> at_empty rest = true ->
   scan_term (render_term st t ++ rest) = Some (t, rest).
 Proof.
-  intros st t rest Hwf Hok Hcross Hrest.
-  apply uses_cross_free in Hcross.
+  intros st t rest Hwf Hok Hrest.
   destruct t as [s|s|lex dt lang].
   - simpl in Hok. unfold render_term. cbn [app]. rewrite <- app_assoc. cbn [app].
     unfold scan_term. change ((60 =? 34) || (60 =? 39)) with false. change (60 =? 60) with true. cbv iota.
@@ -184,7 +165,7 @@ Proof.
     rewrite take_while_app; auto.
     + rewrite Hlast. reflexivity.
     + destruct (at_empty_cases rest Hrest) as [E|[r E]]; subst; reflexivity.
-  - simpl in Hcross. unfold render_term.
+  - unfold render_term.
     destruct (st_bare st && ostr_eqb dt (Some xsd_integer) && ostr_eqb lang None && canonical_int lex) eqn:E1.
     + (* bare integer *)
       apply andb_true_iff in E1. destruct E1 as [E1 Hcan]. apply andb_true_iff in E1. destruct E1 as [E1 Hl].
@@ -243,7 +224,7 @@ Proof. reflexivity. Qed.
 
 Definition cell_ok (st : style) (o : option term) : Prop :=
   match o with
-  | Some t => term_wf t = true /\ term_tsv_ok t = true /\ uses_cross st t = false
+  | Some t => term_wf t = true /\ term_tsv_ok t = true
   | None => True
   end.
 
@@ -258,7 +239,7 @@ Proof.
   destruct rest as [|y rest'].
   - (* last cell *)
     cbn [map join_tab]. destruct x as [t|]; cbn [render_cell].
-    + destruct Hx as [Hwf [Htsv Hcr]].
+    + destruct Hx as [Hwf Htsv].
       destruct (render_term_head st t Hwf Htsv) as [c [r [E E9]]].
       cbn [scan_row]. unfold scan_cell. rewrite E. cbn [at_empty]. rewrite E9. rewrite <- E.
       rewrite <- (app_nil_r (render_term st t)). rewrite scan_term_render; auto.
@@ -269,7 +250,7 @@ Proof.
     change (render_cell st y :: map (render_cell st) rest') with (map (render_cell st) (y :: rest')).
     specialize (IH f Hf ltac:(discriminate) Hrest).
     destruct x as [t|]; cbn [render_cell].
-    + destruct Hx as [Hwf [Htsv Hcr]].
+    + destruct Hx as [Hwf Htsv].
       destruct (render_term_head st t Hwf Htsv) as [c [r [E E9]]].
       cbn [scan_row]. unfold scan_cell.
       assert (Hae : at_empty (render_term st t ++ 9 :: join_tab (map (render_cell st) (y :: rest'))) = false)
